@@ -381,7 +381,7 @@ class C20(Prop):
         for hs, ps in bad:
             for mode in MODES:
                 cases.append({"kind": "bad", "mode": mode, "forward": rng.random() < 0.5, "hshape": list(hs), "shape": ps,
-                              "t": rng.choice([0.0, 0.3]), "seed": rng.randrange(10 ** 6)})
+                              "t": rng.choice([0.05, 0.3]), "seed": rng.randrange(10 ** 6)})   # t > 0: an empty time span makes solve_ivp return before it looks at H
         return cases
 
     def nontrivial(self, case):
@@ -540,9 +540,11 @@ class C20(Prop):
         name = mc[0]
         if name == "OSolveIvp":
             _, method, coef, tspan, teval = mc
+            # an empty t_eval in the model stands for `t_eval` not being passed
             return {"kernel": "solve_ivp", "method": method, "coef": [[coef[0], coef[1]], [coef[2], coef[3]]],
-                    "t_span": [[tspan[0], tspan[1]], [tspan[2], tspan[3]]], "t_eval": [list(x) for x in teval],
-                    "kwargs": ["method", "t_eval"]}
+                    "t_span": [[tspan[0], tspan[1]], [tspan[2], tspan[3]]],
+                    "t_eval": [list(x) for x in teval] if teval else None,
+                    "kwargs": ["method", "t_eval"] if teval else ["method"]}
         if name == "OEigsh":
             _, k, coef = mc
             return {"kernel": "eigsh", "k": k, "coef": [[coef[0], coef[1]], [coef[2], coef[3]]], "kwargs": ["k"]}
